@@ -38,6 +38,10 @@ class Prov:
         for d in astutil.find(tu.fn(fname), 'VarDecl'):
             m = re.fullmatch(r'(.+)\[(\d+)\]', d.get('type', {}).get('qualType', ''))
             if m: self.arrays[d['name']] = int(m.group(2))
+        self.global_arrays = {}
+        for name, d in tu.globals.items():
+            m = re.fullmatch(r'(.+)\[(\d+)\]', d.get('type', {}).get('qualType', ''))
+            if m and name not in self.arrays: self.global_arrays[name] = int(m.group(2))
         # values ever assigned to each variable, with their path/index (for loop-carried pointers)
         self.assigned = {}; self.assuming = set(); self.proved = {}
         for p in paths:
@@ -136,6 +140,10 @@ class Prov:
                     K = int(g.group(4)); op = g.group(3)
                     least = {'<=': K + 1, '<': K}.get(op) if not e[2] else {'>': K + 1, '>=': K}.get(op)
                     if least is not None and gk + least >= kk and self.safe(g.group(2), p, i, depth + 1): return True
+        if b == X and X not in ('NULL', '0') and not re.fullmatch(r"\w+", X):
+            # neither an offset from something known nor any of the forms above (a pointer loaded from a table the rule
+            # does not know, a field of a mutable object ...): not judged
+            raise ProvUnknown(f'{X}: no model for where this pointer comes from')
         return False
 
     def counter_max(self, v0):
@@ -344,9 +352,10 @@ def run(ck):
                           badbuf.setdefault(f'{e[1]} := {e[2]}: index not bounded below {size}', where(e[3]))
                   # offset dereferences in conditions / values
                   for s in eavobj.event_values(e):
-                      for m in re.finditer(r"(\w+|\([^()]*(?:\([^()]*\)[^()]*)*\))\[(-?\d+)\]", s):
+                      for m in re.finditer(r"((?:[\w@#']+(?:->|\.))*\w+|\([^()]*(?:\([^()]*\)[^()]*)*\))\[(-?\d+)\]", s):
                           base, k = m.group(1), int(m.group(2))
                           if base in pv.arrays or base in ('reserved', 'example', 'errors', 'tld_list') or '__ctype' in base or '__ctype' in s[:m.start()][-30:]: continue
+                          if base in pv.global_arrays and 0 <= k < pv.global_arrays[base]: n += 1; continue      # constant index into a file-scope array of known size
                           n += 1
                           if k >= 0:
                               ok = pv.safe(base if k == 0 else f'({base} + {k})', p, i)
